@@ -3,7 +3,7 @@ From Coq Require Import Reals List.
 From Coquelicot Require Import Coquelicot.
 From GS Require Import ExprR LinAlg Meth MethR Prog Chain Wrap Spec GenR2 GenR3 GenSE2 GenSE3 GenEdges
   C10_SE3 C10_SE3_boxplus C10_SE2 C10_Rn C09_SE3 C09_SE2 C11_main C01_SE3 C01_Rn C01_SE2 C02_model C07_errors C07_equiv C07_traj
-  GraphModel GNSpec C07_jac2 C07_lmk C07_basis C07_traj2.
+  GraphModel GNSpec C07_jac2 C07_lmk C07_basis C07_traj2 C07_RnJac.
 Import ListNotations.
 Open Scope R_scope.
 
@@ -47,6 +47,15 @@ Lemma C07_all :
      jac_odo2 (comp2 T p1) (comp2 T p2) z = jac_odo2 p1 p2 z) /\
   (forall T p l z off, length T = 3%nat -> length p = 3%nat -> length l = 2%nat -> length z = 2%nat -> length off = 3%nat ->
      nth 0 (jac_lmk2 (comp2 T p) (act2 T l) z off) [] = nth 0 (jac_lmk2 p l z off) []) /\
+  (* R^n graphs under a translation: the Jacobians do not depend on the coordinates at all *)
+  ( (forall T p1 p2 z, length T = 2%nat -> length p1 = 2%nat -> length p2 = 2%nat -> length z = 2%nat ->
+       jac_odoR2 (vadd T p1) (vadd T p2) z = jac_odoR2 p1 p2 z) /\
+    (forall T p1 p2 z, length T = 3%nat -> length p1 = 3%nat -> length p2 = 3%nat -> length z = 3%nat ->
+       jac_odoR3 (vadd T p1) (vadd T p2) z = jac_odoR3 p1 p2 z) /\
+    (forall T p l z off, length T = 2%nat -> length p = 2%nat -> length l = 2%nat -> length z = 2%nat -> length off = 2%nat ->
+       jac_lmkR2 (vadd T p) (vadd T l) z off = jac_lmkR2 p l z off) /\
+    (forall T p l z off, length T = 3%nat -> length p = 3%nat -> length l = 3%nat -> length z = 3%nat -> length off = 3%nat ->
+       jac_lmkR3 (vadd T p) (vadd T l) z off = jac_lmkR3 p l z off) ) /\
   (* ---- landmark slots: the transformed landmark moves by d' = R_T d, its Jacobian is J'_l = J_l R_T^-1 ---- *)
   (forall T p l z off u, length T = 7%nat -> length p = 7%nat -> length l = 3%nat -> length z = 3%nat ->
      length off = 7%nat -> length u = 3%nat -> unitq T -> unitq p -> unitq off -> forall i,
@@ -86,6 +95,7 @@ Proof.
   split; [exact C07_boxplus_SE3|]. split; [exact C07_boxplus_SE2|]. split; [exact C07_boxplus_point3|]. split; [exact C07_boxplus_point2|].
   split; [exact C07_jac_odo_SE3|]. split; [exact C07_jac_lmk_SE3_pose|].
   split; [exact C07_jac_odo_SE2|]. split; [exact C07_jac_lmk_SE2_pose|].
+  split; [exact C07_jac_Rn|].
   split; [intros; split; [apply C07_jac_lmk_SE3_point | apply C07_jac_lmk_SE3_point_inv]; assumption|].
   split; [intros; split; [apply C07_jac_lmk_SE2_point | apply C07_jac_lmk_SE2_point_inv]; assumption|].
   split; [exact rot3_inverse|]. split; [exact rot2_inverse|].
